@@ -2,7 +2,7 @@
 # Build the private, patched copies of grailbio/base v0.0.9 and bigmachine v0.5.8
 # under /verif/.cache/shims (DESIGN.md §2 F1, Appendix A).  Idempotent.
 set -euo pipefail
-V=/verif
+V=$(cd "$(dirname "$0")/.." && pwd)
 S=$V/.cache/shims
 MC=$(go env GOMODCACHE 2>/dev/null || echo /root/go/pkg/mod)
 if [ -f "$S/.ok" ]; then exit 0; fi
